@@ -2,6 +2,7 @@ import RsModel.Lemmas.EqHash
 import RsModel.Lemmas.EqViews
 import RsModel.Lemmas.WarmMap
 import RsModel.Lemmas.HistoryAnswers
+import RsModel.Lemmas.WarmLinesF
 /-!
 # C14 — equality, hashing and cloning are coherent and history-independent
 -/
@@ -117,5 +118,34 @@ theorem c14_eq_every_history (f : Text → Text) (a b : Src) (h : a.eqv b = true
     obtain ⟨ra, a1, a2⟩ := history_map_NA a hka hna σa hca hma hsa hs1 hs2a callsA ka h1
     obtain ⟨rb, b1, b2⟩ := history_map_NA b hkb hnb σb hcb hmb hsb (by rw [← hs]; exact hs1) hs2b callsB kb h2
     exact ⟨ra, rb, a1, b1, fun sma smb ea eb => by rw [a2 sma ea, b2 smb eb, hs]⟩
+
+/-- **… and with columns = false** (file and line granularity): equal values, each observed through its own arbitrary history — any
+normal-mode stream with columns = false of the one and of the other resolve the first mapped chunk of every generated line to the
+same file name and original line; and so do the maps any two `get_map(columns = false)` calls return (lines ≥ 1). -/
+theorem c14_eq_every_history_lines (f : Text → Text) (a b : Src) (h : a.eqv b = true) (ha : a.LossyFun f) (hb : b.LossyFun f)
+    (σa σb : Store) (hna : a.ids.Nodup) (hnb : b.ids.Nodup) (hca : Cold σa a.ids) (hcb : Cold σb b.ids)
+    (hka : a.NoCR) (hkb : b.NoCR) (callsA callsB : List Opts) :
+    (a.WF → b.WF → a.PosHyp false → b.PosHyp false → a.WarmHypL → b.WarmHypL →
+      ∀ ka kb : Nat, callsA[ka]? = some (⟨false, false⟩ : Opts) → callsB[kb]? = some (⟨false, false⟩ : Opts) →
+      ∃ ra rb : SResult, (runCalls a callsA σa).1[ka]? = some ra ∧ (runCalls b callsB σb).1[kb]? = some rb
+        ∧ ∀ L, LNameOf ra.evs L = LNameOf rb.evs L)
+    ∧ (a.ModeHypL → b.ModeHypL → a.SmallFL → b.SmallFL →
+        (∀ m ∈ chunkMs (a.strip.stream ⟨false, true⟩ []).1.evs, ∀ o, m.orig = some o → o.src < U31 ∧ o.line < U31) →
+        (∀ m ∈ chunkMs ((a.warm ⟨false, true⟩).stream ⟨false, true⟩ []).1.evs, ∀ o, m.orig = some o → o.src < U31 ∧ o.line < U31) →
+        (∀ m ∈ chunkMs ((b.warm ⟨false, true⟩).stream ⟨false, true⟩ []).1.evs, ∀ o, m.orig = some o → o.src < U31 ∧ o.line < U31) →
+        ∀ ka kb : Nat, callsA[ka]? = some (⟨false, true⟩ : Opts) → callsB[kb]? = some (⟨false, true⟩ : Opts) →
+        ∃ ra rb : SResult, (runCalls a callsA σa).1[ka]? = some ra ∧ (runCalls b callsB σb).1[kb]? = some rb ∧
+          ∀ sma smb, mapOfEvs false ra.evs = some sma → mapOfEvs false rb.evs = some smb → ∀ L, 0 < L → LNameM sma L = LNameM smb L) := by
+  have he := Src.eqv_erase f a b h ha hb
+  have hs : a.strip = b.strip := by rw [← Src.strip_eraseIds a, ← Src.strip_eraseIds b, he]
+  constructor
+  · intro wa wb pa pb hwa hwb ka kb h1 h2
+    obtain ⟨ra, a1, a2⟩ := history_stream_lname a hka hna σa hca wa pa hwa callsA ka h1
+    obtain ⟨rb, b1, b2⟩ := history_stream_lname b hkb hnb σb hcb wb pb hwb callsB kb h2
+    exact ⟨ra, rb, a1, b1, fun L => by rw [a2 L, b2 L, hs]⟩
+  · intro hma hmb hsa hsb hs1 hs2a hs2b ka kb h1 h2
+    obtain ⟨ra, a1, a2⟩ := history_map_lname a hka hna σa hca hma hsa hs1 hs2a callsA ka h1
+    obtain ⟨rb, b1, b2⟩ := history_map_lname b hkb hnb σb hcb hmb hsb (by rw [← hs]; exact hs1) hs2b callsB kb h2
+    exact ⟨ra, rb, a1, b1, fun sma smb ea eb L hL => by rw [a2 sma ea L hL, b2 smb eb L hL, hs]⟩
 
 end Rs
